@@ -114,7 +114,11 @@ ConvertibleTo(v, t) ==
 -------------------------------------------------------------------------------
 (* Contexts.  A case is [ctx, a, b]: the context and its (up to) two operand      *)
 (* types; Verdict gives "ok" or the broken rule.                                  *)
-AssignCtx == {"assign", "vardecl", "arg", "return", "slice-elem", "map-value", "struct-field", "send-value"}
+\* "tuple-*": the pair under test is NOT the last one of a tuple assignment / a multi-variable
+\* declaration / a multi-value return / an argument list (a well-typed pair follows it): every
+\* pair is checked, whatever its position
+AssignCtx == {"assign", "vardecl", "arg", "return", "slice-elem", "map-value", "struct-field", "send-value",
+              "tuple-assign", "tuple-vardecl", "tuple-return", "tuple-arg", "tuple-assign-mid"}
 
 \* both operands of a binary operator, after the conversion of untyped constants
 BinOK(op, a, b) ==
